@@ -165,6 +165,25 @@ class System:
         a, k, rhs = edge
         return ["declare", ["u", a], enc_fraction(k), self.rhs_term(rhs)]
 
+    def redeclare_leaf(self, rng):
+        """Give a unit that occurs in exactly one declaration another size and return the op that declares
+        it again (the declarations stay mutually consistent); None when there is no such unit"""
+        mentions = {}
+        for a, k, rhs in self.edges:
+            for n in [a] + [b for b, _ in rhs]:
+                mentions[n] = mentions.get(n, 0) + 1
+        cands = [(i, a, rhs) for i, (a, k, rhs) in enumerate(self.edges) if mentions[a] == 1 and a not in self.shipped]
+        if not cands:
+            return None
+        i, a, rhs = rng.choice(cands)
+        d, size = self.units[a]
+        self.units[a] = (d, size * Fraction(2) ** rng.choice([-3, -1, 1, 2, 5]))
+        k = self.units[a][1]
+        for b, e in rhs:
+            k /= self.units[b][1] ** e
+        self.edges[i] = (a, k, rhs)
+        return self.declare_op(self.edges[i])
+
     def size_of_factors(self, factors):
         s = Fraction(1)
         for n, e in factors:
@@ -245,14 +264,26 @@ def run_systems(ctx, nsys, mode="c04", queries=40):
         sysm = System(rng, tag=f"{ctx.shard}x{s}", bridge=bridge)
         ops = sysm.define_ops() + [sysm.declare_op(e) for e in sysm.edges]
         meta = []
-        for _ in range(queries):
-            src = sysm.random_factors(rng)
-            dst = sysm.alternative(rng, src)
-            if not dst:
-                continue
+        redeclare_at = queries // 2 if s % 3 == 1 else None
+        earlier = []
+        for qi in range(queries):
+            if qi == redeclare_at:
+                op = sysm.redeclare_leaf(rng)   # a user corrects one equivalence after conversions were asked
+                if op is not None:
+                    ops.append(op)
+                    ctx.count("synthetic/redeclarations_after_queries")
+            if redeclare_at is not None and qi > redeclare_at and earlier and rng.random() < 0.5:
+                src, dst = rng.choice(earlier)       # ask again what was asked before the correction
+            else:
+                src = sysm.random_factors(rng)
+                dst = sysm.alternative(rng, src)
+                if not dst:
+                    continue
+                earlier.append((src, dst))
             mag = small_mag(rng)
             ops.append(["convert", mag, sysm.term(src), sysm.term(dst)])
-            meta.append((len(ops) - 1, mag, src, dst))
+            # the expected value is computed now, from the sizes in force when the query is asked
+            meta.append((len(ops) - 1, mag, src, dst, sysm.size_of_factors(src) / sysm.size_of_factors(dst)))
         specs.append({"modules": ["si"] if bridge else [], "ops": ops})
         metas.append((sysm, meta))
         if bridge:
@@ -267,14 +298,14 @@ def run_systems(ctx, nsys, mode="c04", queries=40):
         res = log["results"]
         if any("raise" in r for r in res[: len(sysm.units) + len(sysm.edges)]):
             ctx.count("synthetic/declaration_raised")
-        for idx, mag, src, dst in meta:
+        for idx, mag, src, dst, ratio_at_query in meta:
             r = res[idx]
             ctx.count("synthetic/conversions")
             if "raise" in r:
                 ctx.count(f"synthetic/raised/{r['raise']}")
                 continue
             got = M.dec_mag(r["ok"]["mag"])
-            expected = Fraction(M.dec_mag(mag)) * sysm.size_of_factors(src) / sysm.size_of_factors(dst)
+            expected = Fraction(M.dec_mag(mag)) * ratio_at_query
             ctx.count("synthetic/conversions_checked")
             case = {"system": {n: [d, str(s)] for n, (d, s) in sysm.units.items()},
                     "declarations": [[a, str(k), rhs] for a, k, rhs in sysm.edges],
@@ -294,6 +325,6 @@ def run_systems(ctx, nsys, mode="c04", queries=40):
                 ctx.violation("C04:wrong-magnitude:synthetic",
                               f"synthetic system: {mag} {src} -> {dst}: got {got!r}, exact {core.sf(expected)!r}", case)
         if len(ctx.samples) < 9 and meta:
-            idx, mag, src, dst = meta[0]
+            idx, mag, src, dst, _ = meta[0]
             ctx.sample({"synthetic_system_units": len(sysm.units), "declarations": len(sysm.edges),
                         "first_query": [mag, src, dst], "result": res[idx]})
